@@ -234,7 +234,7 @@ class Stream:
 
 
 class World:
-    def __init__(self, fw='--', seed=0, nconn=1):
+    def __init__(self, fw='--', seed=0, nconn=1, server=False):
         from circuits import Component, Event, Manager, handler
         from circuits.core import Value  # noqa
         self.Event = Event
@@ -243,6 +243,9 @@ class World:
         self.notes = []
         self.fw = fw
         self.nconn = nconn
+        # server mode: node 0 is a callee holding all connections on one channel, like node.Server
+        # (one Protocol per socket, server=True); the peers are the callers
+        self.server = server
         # one connection = two streams; node 0 is A (all its connections live in one
         # process: one Manager, one copy of protocol.py), node 1 + c is the peer of connection c
         self.streams = {(c, d): Stream(self.rnd) for c in range(nconn) for d in (0, 1)}
@@ -289,7 +292,7 @@ class World:
                 kw['send_event_firewall'] = lambda ev, sock: ev.name != 'deny_s'
             if node != 0 and 'R' in fw:
                 kw['receive_event_firewall'] = lambda ev, sock: ev.name != 'deny_r'
-            ch = chan_of(conn)
+            ch = world.chan(conn)
 
             class App(Component):
                 channel = ch
@@ -348,14 +351,65 @@ class World:
 
             return App().register(m)
 
+        def make_hub(m, mod):
+            socks = ['sock%d' % c for c in range(nconn)]
+
+            class Hub(Component):
+                channel = CH
+
+                def init(self):
+                    self.protocols = {sk: mod.Protocol(sock=sk, server=True, channel=CH).register(self) for sk in socks}
+
+                def write(self, sock, data):
+                    world.on_write(0, socks.index(sock), data)
+
+                def read(self, sock, data):
+                    try:
+                        self.protocols[sock].add_buffer(data)
+                    finally:
+                        world.after_add_buffer(0)
+
+                def _work(self, event, *args, **kwargs):
+                    sk = getattr(event, 'node_sock', None)
+                    sid = world.on_exec(0, socks.index(sk) if sk in socks else 0, event, args)
+                    st = world.running.get(sid)
+                    while st is not None and st['release'] is None:
+                        yield None
+                    if st is None:
+                        return
+                    rel = st['release']
+                    del world.running[sid]
+                    if rel[0] == 'e':
+                        raise RuntimeError('callee handler for sid %s fails' % sid)
+                    yield rel[1]
+
+                @handler('work', 'deny_s', 'deny_r')
+                def _on_work(self, event, *args, **kwargs):
+                    return self._work(event, *args, **kwargs)
+
+                def hwork(self, event, *args, **kwargs):
+                    world.on_hexec(0, event, args)
+                    return 'h'
+
+                def probe(self, n):
+                    for c in range(nconn):
+                        world.probe_seen[(0, c)] = n
+
+            return Hub().register(m)
+
         self.nodes = [make_node(n) for n in range(1 + nconn)]
         self.links = {}
+        if server:
+            hub = make_hub(*self.nodes[0])
         for c in range(nconn):
-            self.links[(0, c)] = make_link(0, c, *self.nodes[0])
+            self.links[(0, c)] = hub if server else make_link(0, c, *self.nodes[0])
             self.links[(1 + c, c)] = make_link(1 + c, c, *self.nodes[1 + c])
         for n in range(1 + nconn):
             self.settle(n)
         self.log.append(line('cfg', 0, 1 if 'S' in fw else 0, 1 if 'R' in fw else 0, nconn))
+
+    def chan(self, conn):
+        return CH if self.server else chan_of(conn)
 
     # -- observers ---------------------------------------------------------
     def proj_id(self, e):
@@ -484,7 +538,7 @@ class World:
 
     def fire(self, node, conn, ev):
         m = self.nodes[node][0]
-        m.fire(ev, chan_of(conn))
+        m.fire(ev, self.chan(conn))
         self.settle(node)
 
     def make_value(self, sid, v):
@@ -514,7 +568,7 @@ class World:
     def step_send(self, size, pay, fwk, conn=0, nr=False):
         Event = self.Event
         r = self.rnd
-        ch = chan_of(conn)
+        ch = self.chan(conn)
         sid = len(self.sends) + 1
         name = {'ok': 'work', 'sblk': 'deny_s', 'rblk': 'deny_r'}[fwk]
         args = [sid]
@@ -528,7 +582,9 @@ class World:
         if size == 'b':
             args.append(_text(r, r.randint(4200, 4400)))
         elif size == 'h':      # harness only: a packet of more than 64 KiB (after escaping), many 4 KiB reads
-            args.append(_text(r, r.randint(70000, 90000)) if r.random() < 0.6 else '~' * r.randint(11500, 14000))
+            q = r.random()
+            args.append(_text(r, r.randint(67000, 90000)) if q < 0.5 else
+                        _text(r, r.randint(290000, 310000)) if q < 0.7 else '~' * r.randint(11500, 14000))
         if pay == 'tilde':
             if size == 'b':
                 # inner delimiter after about one third of the packet
@@ -568,9 +624,9 @@ class World:
             self.sends[sid]['wire'] = self.nwire[conn]
             self.nwire[conn] += 1
         self.log.append(line('send', sid, pid, 1 if sok else 0, 1 if rok else 0, 'nr' if nr else ''))
-        st = self.streams[(conn, 0)]
+        st = self.streams[(conn, 1 if self.server else 0)]
         npk = len(st.packets)
-        self.fire(0, conn, Event.create('gonr' if nr else 'go', ev, sid))
+        self.fire((1 + conn) if self.server else 0, conn, Event.create('gonr' if nr else 'go', ev, sid))
         for pk in st.packets[npk:]:
             pk['kind'] = 'call'
             pk['sid'] = sid
@@ -587,7 +643,8 @@ class World:
         rcv = (1 + conn) if d == 0 else 0
         out = self.streams[(conn, 1 - d)]
         npk = len(out.packets)
-        self.fire(rcv, conn, self.Event.create('read', data))
+        self.fire(rcv, conn, self.Event.create('read', 'sock%d' % conn, data) if (self.server and rcv == 0)
+                  else self.Event.create('read', data))
         self._tag_replies(conn, 1 - d, npk)
         if st.touches_hostile(b0, st.rbyte):
             self.probe(rcv, conn)
@@ -616,6 +673,12 @@ class World:
         else:
             st['release'] = ('v', self.make_value(sid, v))
             self.log.append(line('release', sid, v, 0))
+        if self.server:
+            npks = {c: len(self.streams[(c, 0)].packets) for c in range(self.nconn)}
+            self.settle(0)
+            for c in range(self.nconn):
+                self._tag_replies(c, 0, npks[c])
+            return True
         npk = len(self.streams[(conn, 1)].packets)
         self.settle(1 + conn)
         self._tag_replies(conn, 1, npk)
@@ -695,13 +758,13 @@ class World:
                 if not (s['sok'] and s['rok']):
                     continue
                 if clause == 'C19.lost' and not ex.get(sid):
-                    st0 = self.streams[(s['conn'], 0)]
+                    st0 = self.streams[(s['conn'], 1 if self.server else 0)]
                     pks = [p for p in st0.packets if p['kind'] == 'call' and p['sid'] == sid]
                     w = {'what': 'call_not_executed', 'cut': any(st0.was_cut(p) for p in pks),
                          'pay': s['pay'], 'size': s['size'], 'written': bool(pks)}
                     break
                 if clause == 'C19.result' and rel.get(sid) and not dl.get(sid) and not s.get('nr'):
-                    st1 = self.streams[(s['conn'], 1)]
+                    st1 = self.streams[(s['conn'], 0 if self.server else 1)]
                     pks = [p for p in st1.packets if p['kind'] == 'reply' and p['sid'] == sid]
                     w = {'what': 'no_deliver', 'callee_raised': rel.get(sid) == 2,
                          'reply_written': bool(pks), 'cut': any(st1.was_cut(p) for p in pks)}
@@ -716,6 +779,7 @@ class World:
                 s = self.sends[ln['id']]
                 w.update({'pay': s['pay'], 'size': s['size'], 'fwk': s['fwk']})
         w['conns'] = self.nconn
+        w['server'] = self.server
         return w
 
 
